@@ -297,3 +297,16 @@ func Catch(f func()) (p string) {
 	f()
 	return ""
 }
+
+// AddMap adds n to entry key of the map-valued coverage counter name.
+func (r *Run) AddMap(name, key string, n int64) {
+	r.mu.Lock()
+	defer r.mu.Unlock()
+	m, _ := r.Cov[name].(map[string]interface{})
+	if m == nil {
+		m = map[string]interface{}{}
+		r.Cov[name] = m
+	}
+	cur, _ := toInt(m[key])
+	m[key] = cur + n
+}
